@@ -25,6 +25,11 @@ TARGETED = [
     "n:(m.z:g AND m.z:g2)", "n:(m:(z:g) AND m:(z:g2))", "n.m:(z:g AND z:g2)", "n:(m.z:g m.z:g2)", "n:(m.z:g OR m.z:g2)", "n:(NOT m.z:g)",
     "n:(-m.z:g)", "n:(NOT m:(z:g))", "n:(m.z:g AND NOT m.z:g2)", "n:(x:d AND m.z:g AND m.z:g2)", "n.m.z:g AND n.m.z:g2", "NOT n.m.z:g",
     "n:(m:(z:g AND z:g2))", "n:(m:(NOT z:g))", "n:((m.z:g AND m.z:g2))", "n:((m.z:g AND m.z:g2)^2)",
+    # negated groups around implicit / explicit operations (the default operator decides what the implicit one means)
+    "NOT (a b)", "c AND NOT (a b)", "c NOT (a b)", "-(a b) c", "NOT (a AND b)", "NOT (a OR b) c", "n:(NOT (x:d y:e))", "n:(x:d AND m:(NOT (z:g z:g2)))",
+    "t:(c NOT (a b))", "NOT (a -b)", "(a -b) AND c", "a (b -c)",
+    # the same name component below two parents with different answers (history inside one builder)
+    "o:(m:(z:g2)) AND n:(m:(z:g))", "n:(m:(z:g)) AND o:(m:(z:g2))", "o:(x:c) AND n:(x:d)", "n:(x:d) AND o:(x:c)", "o.x:c OR n:(x:d AND y:e)",
     "nx:q", "nx:q AND n.x:d", "n.mz:p", "n:(mz:p)", "n:(mz:p AND m.z:g)", "n.xy:r OR n.x:d", "n_m:s n.m.z:g",
 ]
 
